@@ -2,6 +2,7 @@ import Driver.Proto
 import Driver.OpsDiffGeo
 import LapyVerif.Model.Poisson
 import LapyVerif.Model.Measures
+import LapyVerif.Model.Heat
 namespace LapyVerif.Driver
 open LapyVerif
 
@@ -36,5 +37,43 @@ def opPoissonFill : P String := do
   return s!"ok {outFloats (Poisson.fill dim didx ddat (Poisson.freeIdx dim didx) x)}"
 
 def solveOps : List (String × P String) := [("poisson_sys", opPoissonSys), ("poisson_fill", opPoissonFill)]
+
+end LapyVerif.Driver
+
+namespace LapyVerif.Driver
+open LapyVerif
+
+/-- `heat_sys tri|tet verts elems m vids` → `ok t hmat b0` -/
+def opHeatSys : P String := do
+  let kind ← tok
+  let v ← pVerts
+  let vtx := vtxOf v
+  if kind == "tri" then
+    let t ← pTris; let m ← pFloat; let vids ← pNats
+    let tt := Heat.time m (Measures.avgEdgeLength vtx t)
+    return s!"ok {floatBits tt} {outCoo (Heat.heatMat tt (Fem.stiffTria vtx t) (Fem.massTria true vtx t))} {outFloats (Heat.seedVec v.size vids)}"
+  else
+    let t ← pTets; let m ← pFloat; let vids ← pNats
+    let tt := Heat.time m (Measures.tetAvgEdgeLength vtx t)
+    return s!"ok {floatBits tt} {outCoo (Heat.heatMat tt (Fem.stiffTet vtx t) (Fem.massTet true vtx t))} {outFloats (Heat.seedVec v.size vids)}"
+
+def pMatrix : P (List (List Float)) := do
+  let r ← pNat; let c ← pNat
+  let rows ← pMany r (do let x ← pMany c pFloat; pure x.toList)
+  return rows.toList
+
+def outMatrix (m : List (List Float)) : String :=
+  " ".intercalate (toString m.length :: toString (m.headD []).length :: m.map fun r => " ".intercalate (r.map floatBits))
+
+/-- `kernel times vfix evecs(matrix) evals n` -/
+def opKernel : P String := do
+  let ts ← pFloats; let vfix ← pNat; let ev ← pMatrix; let la ← pFloats; let n ← pNat
+  return s!"ok {outMatrix (Heat.kernel ts vfix ev la n)}"
+
+def opDiagonal : P String := do
+  let ts ← pFloats; let xs ← pNats; let ev ← pMatrix; let la ← pFloats; let n ← pNat
+  return s!"ok {outMatrix (Heat.diagonal ts xs ev la n)}"
+
+def heatOps : List (String × P String) := [("heat_sys", opHeatSys), ("kernel", opKernel), ("diagonal", opDiagonal)]
 
 end LapyVerif.Driver
